@@ -287,7 +287,9 @@ func (m *matRule) discover() {
 	for ph := range m.phis {
 		phis = append(phis, ph)
 	}
-	sort.Slice(phis, func(i, j int) bool { return phis[i].Pos() < phis[j].Pos() || (phis[i].Pos() == phis[j].Pos() && phis[i].Name() < phis[j].Name()) })
+	sort.Slice(phis, func(i, j int) bool {
+		return phis[i].Pos() < phis[j].Pos() || (phis[i].Pos() == phis[j].Pos() && phis[i].Name() < phis[j].Name())
+	})
 	for _, ph := range phis {
 		m.vals[ph] = true
 	}
